@@ -1364,6 +1364,28 @@ def corr_runs(ctx, m):
         ctx._c19_second.append(so)
 
 
+def translate(ctx):
+    """tie T for the PRNG core: XorShift.__init__ / next and the prelude and acceptance test of randint are translated
+    from source into Gen/PyIntRandom.v on every run; Generator/XorShiftGen.v proves them equal to the model
+    (Props/C19.v::*_from_source)"""
+    import pyint_translate as T
+    src = open(os.path.join(vlib.REPO, "cspuz", "generator", "deterministic_random.py")).read()
+    F = ["x", "y", "z", "w"]
+    C = {"_XORSHIFT_DOMAIN_SIZE": 1 << 32}
+    import ast
+    tree = ast.parse(src)
+    dom = [n for n in tree.body if isinstance(n, ast.Assign) and ast.unparse(n.targets[0]) == "_XORSHIFT_DOMAIN_SIZE"]
+    if len(dom) != 1 or ast.unparse(dom[0].value) != "1 << 32":
+        raise T.TranslateError("_XORSHIFT_DOMAIN_SIZE is not `1 << 32`")
+    txt = T.HEADER % ("cspuz/generator/deterministic_random.py (XorShift.__init__, XorShift.next, randint)",
+                      "w = b - a + 1 (after `if a > b: raise`)")
+    txt += T.translate_method(src, "XorShift", "__init__", "xorshift_init_py", F, init=True) + "\n"
+    txt += T.translate_method(src, "XorShift", "next", "xorshift_next_py", F) + "\n"
+    txt += T.translate_function(src, "randint", "randint_prelude_py", consts=C, nonzero=["w"], upto=["w", "limit"]) + "\n"
+    txt += T.translate_loop_accept(src, "randint", "randint_accept_py", ["a", "w", "limit"], "_rng.next()", consts=C, nonzero=["w"])
+    vlib.write_if_changed(os.path.join(vlib.THEORIES, "Gen", "PyIntRandom.v"), txt)
+
+
 def correspond(ctx):
     m = ctx.model("C19")
     corr_prng(ctx, m)
